@@ -268,7 +268,7 @@ def generate(ctx):
     # the recorded defect (fixed): chunksize=-1 with ready empty while a task runs
     yield "trace", {"dag": {"nodes": [["t", [], []], ["t", [], []], ["t", [0, 1], [0, 1]]], "keys": "str", "style": "legacy"},
                     "req": 2, "nw": 2, "cs": -1, "fails": {}, "choices": [0, 0, 0], "seed": 0, "bias": None}
-    for _ in range(ctx.n(1000, 8000)):
+    for _ in range(ctx.n(1500, 8000)):
         yield "trace", U.gen_trace_input(rng, max_n=rng.choice([4, 7, 10, 14]), fail_p=0.0, missing_p=0.03)
     for _ in range(ctx.n(300, 3000)):
         inp = U.gen_trace_input(rng, max_n=rng.choice([3, 6, 10]), missing_p=0.15)
